@@ -10,6 +10,40 @@ CHECKS = {
  "C02": dict(technique="runtime monitoring: panic/stack-overflow/no-progress capture under a lowered stack ceiling on generated hostile inputs",
    text="Exploration. IsXSS, each of the five contexts and the tokenizer with a step cap are executed on generated inputs (exhaustive short strings over the HTML-significant alphabet, truncations, decoy-terminator bodies, mutation, multi-hundred-KiB repetitions of every byte and byte pair) with the goroutine stack ceiling lowered to 256 KiB so that input-proportional recursion is an observable crash.",
    note="Trusts Go runtime checks; termination restated as bounded progress; recursion observed through the 256 KiB ceiling on inputs up to 256 KiB (quick) / 4 MiB (thorough).", ref="6 C02"),
+
+ "C03": dict(technique="runtime monitoring: constant-true oracle over an enumerated and sampled attack grammar",
+   text="Exploration. Every member of a fixed attack grammar (11 quoting prefixes x closers x 12 separators x 70 payload templates x case masks x 12 tails, minus the productions dropped by a one-time calibration) is passed to IsSQLi; exhaustive with one separator per string and four case masks, sampled with independent separators and random masks beyond. Any false verdict is a violation with the per-context fingerprints as witness.",
+   note="The grammar is fixed data calibrated once on the repaired tree (grammar/g03_dropped.txt lists the drops); detection outside the grammar is not claimed.", ref="6 C03"),
+ "C04": dict(technique="runtime monitoring: constant-true oracle over a vector grammar instantiated from the live tables",
+   text="Exploration. Every black tag, every on* event, every URL attribute x scheme, style/filter, xmlns/xlink/datasrc, attributename indirection and the markup vectors are rendered behind every breakout prefix with an axis-wise sweep of separators, quotings, case masks, tag ends and NUL positions, then random products incl. per-byte character-reference encodings, leading junk and NUL/LF inside schemes; IsXSS must be true.",
+   note="Lists are read from the live tables at run time (a removed entry is C20's business). Grammar fixed; calibrated once.", ref="6 C04"),
+ "C08": dict(technique="runtime monitoring: assertion on every IsSQLi return value against the live blacklist and per-context fingerprints",
+   text="Exploration. On every generated input the pair returned by IsSQLi is checked: false comes with the empty string; true comes with 1-5 class characters, 'c' only last, a live blacklist member, equal to the fingerprint of some context computed on fresh state.",
+   note="Per-context fingerprints come from the build-tagged accessor running the real code on a fresh state.", ref="6 C08"),
+ "C09": dict(technique="runtime resource monitoring: thread-CPU-time scaling experiment per input family with fresh-process confirmation",
+   text="Exploration. For ~900 catalogue families (thorough: + ~35k generated pair families) thread CPU time is measured at n, 4n, 16n bytes; growth >= 64 over 16x (exponent >= 1.5) or > 2 us/byte, reproduced twice alone in a fresh process, is a violation; growth in (40,64) is reported as inconclusive.",
+   note="Timing thresholds calibrated on this sandbox (linear 13-24, quadratic 139-376); decides only the listed and generated families.", ref="6 C09"),
+ "C12": dict(technique="runtime monitoring: public result vs documented cascade recomputed from fresh-state per-context observations; metamorphic quote-equivalence",
+   text="Exploration. IsSQLi is compared on every generated input with the documented context cascade evaluated over fresh-state observations of the real code (gates from the pass's own counters); reading s inside a quote is compared (fingerprint, verdict unless sos/s&s, statistics, token stream shifted by one) with reading quote+s as-is.",
+   note="The cascade order is my transcription of the property; its elements are observations of the real code.", ref="6 C12"),
+ "C13": dict(technique="runtime monitoring: metamorphic relations between injection contexts, embeddings and text prefixes",
+   text="Exploration. On every generated HTML input: IsXSS equals the OR of the five per-context verdicts; each attribute-context verdict equals the data-state verdict of the input embedded after <a , <a b=', <a b=\", <a b=`; prepending '<'-free text never changes the data-state verdict.",
+   note="Per-context verdicts via the accessor (the real isXSS).", ref="6 C13"),
+ "C15": dict(technique="runtime monitoring: constant-false oracle over strings without '<' and '='",
+   text="Exploration. Bounded-exhaustive strings over the HTML alphabet minus '<' and '=', plus filtered corpus truncations, sequences, mutations and XSS-grammar vectors; IsXSS must be false, the firing context is reported.",
+   note="Exhaustive only up to the stated atom bound; sampled beyond.", ref="6 C15"),
+ "C16": dict(technique="runtime monitoring: trace-invariant checker over recorded token records and scan offsets",
+   text="Exploration. The token stream of every generated input in all six modes is recorded through the accessor (class, offset, length, value, scan offset before/after) and checked against the slice / order / progress / end-of-scan inequalities.",
+   note="Accessor loop = the loop the repository's own token fixtures use.", ref="6 C16"),
+ "C17": dict(technique="runtime monitoring: trace-invariant checker plus first-terminator oracle over exhaustively enumerated construct bodies",
+   text="Exploration. Generic range/order/count inequalities on every HTML token trace from all five contexts; for each delimited construct every body over {terminator bytes, NUL, filler, '<'} up to length 6 (thorough 9) behind three text prefixes is compared (offset, length, resume offset) with a first-terminator oracle written from the property text.",
+   note="Oracle is a direct transcription of the property statement.", ref="6 C17"),
+ "C18": dict(technique="runtime monitoring: first-terminator oracle over exhaustively enumerated literal bodies, all literal forms and all 223 q-delimiters",
+   text="Exploration. For 19 literal forms x bodies over {delimiter, backslash, x, other quote} up to length 7 (thorough 10), periodic bodies U.V.U.V, every q-quote delimiter byte >= 33, dollar quotes, and literals embedded in random SQL, the string token (content start/end from the scan offset, closed?, marks, resume offset) is compared with a transcription of the property's terminator rules.",
+   note="Oracle independent of the implementation; token records via accessor.", ref="6 C18"),
+ "C20": dict(technique="runtime inspection of live data structures at a quiescent point against predicates and a pinned snapshot",
+   text="Exploration (finite space, enumerated completely: exhaustive=true). All entries of the five live tables are read after package initialisation and checked for well-formedness; every entry of the pinned baseline snapshot must be present with the same classification and is exercised through the real look-up.",
+   note="baseline/tables.json was taken once from the pinned tree 0520984.", ref="6 C20"),
 }
 
 NOT_YET = {}
